@@ -2066,29 +2066,50 @@ class PGPKey(Armorable, ParentRef, PGPObject):
         if key.is_public:
             raise PGPError("Cannot add a public key as a subkey to this key")
 
-        if key.is_primary:
-            if len(key._children) > 0:
-                raise PGPError("Cannot add a key that already has subkeys as a subkey!")
+        if key.is_primary and len(key._children) > 0:
+            raise PGPError("Cannot add a key that already has subkeys as a subkey!")
 
-            # convert key into a subkey
-            npk = PrivSubKeyV4()
-            npk.pkalg = key._key.pkalg
-            npk.created = key._key.created
-            npk.keymaterial = key._key.keymaterial
-            key._key = npk
-            key._key.update_hlen()
+        # the binding signature may be refused (this key or the offered one is locked, a signing subkey without a
+        # cross-signature is asked for): both keys are then put back as they were, instead of leaving a subkey that
+        # nothing binds under this key and an offered key stripped of its identities
+        keyid = key.fingerprint.keyid
+        before = (key._key, list(key._uids), list(key._signatures), key._parent, self._children.get(keyid))
 
-            # a subkey has no identities of its own, and what was signed on it as a primary key (certifications,
-            # direct-key signatures, revocations) says nothing about the subkey it has become: if these were
-            # kept they would be exported after the subkey packet and be taken for identities of the new primary
+        try:
+            if key.is_primary:
+                # convert key into a subkey
+                npk = PrivSubKeyV4()
+                npk.pkalg = key._key.pkalg
+                npk.created = key._key.created
+                npk.keymaterial = key._key.keymaterial
+                key._key = npk
+                key._key.update_hlen()
+
+                # a subkey has no identities of its own, and what was signed on it as a primary key (certifications,
+                # direct-key signatures, revocations) says nothing about the subkey it has become: if these were
+                # kept they would be exported after the subkey packet and be taken for identities of the new primary
+                key._uids.clear()
+                key._signatures.clear()
+
+            self._children[keyid] = key
+            key._parent = self
+
+            ##TODO: skip this step if the key already has a subkey binding signature
+            bsig = self.bind(key, **prefs)
+
+        except Exception:
+            key._key = before[0]
             key._uids.clear()
+            key._uids.extend(before[1])
             key._signatures.clear()
+            key._signatures.extend(before[2])
+            key._parent = before[3]
+            if before[4] is None:
+                self._children.pop(keyid, None)
+            else:
+                self._children[keyid] = before[4]
+            raise
 
-        self._children[key.fingerprint.keyid] = key
-        key._parent = self
-
-        ##TODO: skip this step if the key already has a subkey binding signature
-        bsig = self.bind(key, **prefs)
         key |= bsig
 
     def _leading_identity(self):
